@@ -11,6 +11,7 @@ argument (new_id < n at every store, new_id = n at the end) that z3 cannot do by
 """
 import z3
 
+from pyvc import ext_C05
 from pyvc.spec import Registry
 from pyvc.values import Obj, PList, SArr, Sym, fresh_name, to_z3, zint
 
@@ -174,6 +175,11 @@ def post(which):
             return z3.And(new_pids.get(0).z == -1, sigma.get(0).z == p0)
         if which == "parent-relation-preserved-and-parents-first":
             return z3.ForAll([k], z3.Implies(z3.And(0 < k, k < n), z3.And(0 <= new_pids.get(k).z, new_pids.get(k).z < k, sigma.get(new_pids.get(k).z).z == pp(sigma.get(k).z))))
+        if which == "parent-id-of-a-renumbered-node-is-the-id-of-the-row-behind-its-new-parent":
+            # the same fact without ghost vocabulary, in the ids of the table itself: the row indices[k] names as its parent the id
+            # carried by the row indices[new_pids[k]]; the row indices[0] is the root row
+            return z3.And(z3.Implies(n > 0, sel(P, sigma.get(0).z) == -1),
+                          z3.ForAll([k], z3.Implies(z3.And(0 < k, k < n), sel(P, sigma.get(k).z) == sel(A, sigma.get(new_pids.get(k).z).z))))
         raise KeyError(which)
 
     return f
@@ -225,7 +231,8 @@ def impl_result(S, fr):
 
 
 def register(R: Registry):
-    posts = ["lengths", "one-to-one-between-old-and-new-nodes", "new-ids-are-0-to-n-1", "root-is-0", "parent-relation-preserved-and-parents-first"]
+    posts = ["lengths", "one-to-one-between-old-and-new-nodes", "new-ids-are-0-to-n-1", "root-is-0", "parent-relation-preserved-and-parents-first",
+             "parent-id-of-a-renumbered-node-is-the-id-of-the-row-behind-its-new-parent"]
     R.add(
         f"{NORM}:sort_nodes_impl",
         prop="C05",
@@ -233,9 +240,11 @@ def register(R: Registry):
         requires=pre_clauses(lambda v: (v["topology"][0].arr, v["topology"][1].arr, v["topology"][0].nz())),
         returns=impl_result,
         ensures=[(nm, post(nm)) for nm in posts],
-        loops={0: dict(invariant=INV, types={"s": ["int", "int"]}, modifies=["G"])},
-        options=dict(ghost_after=GHOST, hints={"exc/unexpected-AssertionError": single_root_hint},
-                     asserts_after={"id2idx": [("all-rows-numbered-when-the-stack-is-empty", after_loop)]}),
+        # the counting argument is closed where the loop is LEFT (loop key `at_exit`), not after whatever the carrier assigns next: the
+        # tail that turns visited ids into rows may be rewritten freely (other locals, np.argsort / np.searchsorted ...)
+        loops={0: dict(invariant=INV, types={"s": ["int", "int"]}, modifies=["G"],
+                       at_exit=[("all-rows-numbered-when-the-stack-is-empty", after_loop)])},
+        options=dict(models=ext_C05.MODELS, ghost_after=GHOST, hints={"exc/unexpected-AssertionError": single_root_hint}),
         notes="termination of the stack loop is not proved; numpy int32 treated as mathematical integers",
     )
 
@@ -289,10 +298,43 @@ def register_users(R):
             pids_after.get(0).z == -1, sigma.get(0).z == P0,
             z3.ForAll([k], z3.Implies(z3.And(0 < k, k < n), z3.And(0 <= pids_after.get(k).z, pids_after.get(k).z < k, sigma.get(pids_after.get(k).z).z == pp(sigma.get(k).z)))))
 
+    # Clauses that need NO witness (they speak about the result alone): a path that never calls sort_nodes_impl -- a short-cut -- is judged
+    # by them on its merits, with a genuine counter-model when it is wrong.
+    def shape(ids_before, ids_after, pids_after, which):
+        n = ids_before.nz()
+        k = z3.Int(fresh_name("k"))
+        if which == "id-column-equals-row-position":
+            return z3.And(ids_after.nz() == n, z3.ForAll([k], z3.Implies(z3.And(k >= 0, k < n), ids_after.get(k).z == k)))
+        if which == "root-is-row-0-and-parents-precede-children":
+            return z3.And(pids_after.nz() == n, pids_after.get(0).z == -1,
+                          z3.ForAll([k], z3.Implies(z3.And(0 < k, k < n), z3.And(0 <= pids_after.get(k).z, pids_after.get(k).z < k))))
+        raise KeyError(which)
+
+    def parent_ids(E, ids_before, pids_before, pids_after):
+        """the preserved parent relation in the ids of the OLD table (no ghost parent function): old row sigma[k] names as its parent the id
+        carried by old row sigma[new parent of k]; old row sigma[0] is the root row"""
+        n = ids_before.nz()
+        c = impl_call(E, n)
+        if c is None:
+            return False
+        sigma = c["__result__"][1]
+        k = z3.Int(fresh_name("k"))
+        return z3.And(pids_before.get(sigma.get(0).z).z == -1,
+                      z3.ForAll([k], z3.Implies(z3.And(0 < k, k < n), pids_before.get(sigma.get(k).z).z == ids_before.get(sigma.get(pids_after.get(k).z).z).z)))
+
+    SHAPES = ("id-column-equals-row-position", "root-is-row-0-and-parents-precede-children")
+    PARENT_IDS = "parent-ids-read-through-the-bijection-name-the-old-parents"
+
     # ---------------------------------------------------------------- sort_nodes_(df)
     def df_post(which):
         def f(E, v, o):
             d1, d0 = v["df"], o["df"]
+            if "id" not in d1.cols or "pid" not in d1.cols:
+                return False
+            if which in SHAPES:
+                return shape(d0.cols["id"], d1.cols["id"], d1.cols["pid"], which)
+            if which == PARENT_IDS:
+                return parent_ids(E, d0.cols["id"], d0.cols["pid"], d1.cols["pid"])
             c = impl_call(E, zint(d0.n))
             if c is None:
                 return False
@@ -307,8 +349,11 @@ def register_users(R):
           setup=lambda S: dict(df=S.dframe(cols), names=None),
           requires=pre_clauses(lambda v: (v["df"].cols["id"].arr, v["df"].cols["pid"].arr, zint(v["df"].n))),
           modifies=["df"],
-          ensures=[("every-column-follows-the-bijection", df_post("every-column-follows-the-bijection")),
-                   ("ids-0-to-n-1-root-0-parents-first-parent-relation-preserved", df_post("relabelled"))])
+          options=dict(models=ext_C05.MODELS),
+          ensures=[(w, df_post(w)) for w in SHAPES]
+          + [("every-column-follows-the-bijection", df_post("every-column-follows-the-bijection")),
+             ("ids-0-to-n-1-root-0-parents-first-parent-relation-preserved", df_post("relabelled")),
+             (PARENT_IDS, df_post(PARENT_IDS))])
 
     # ---------------------------------------------------------------- sort_nodes(df): the copying form
     def on_result(clause):
@@ -335,9 +380,12 @@ def register_users(R):
     R.add(f"{NORM}:sort_nodes", prop="C05",
           setup=lambda S: dict(df=frozen_frame(S), names=None),
           requires=pre_clauses(lambda v: (v["df"].cols["id"].arr, v["df"].cols["pid"].arr, zint(v["df"].n))),
-          ensures=[("every-column-follows-the-bijection", on_result(df_post("every-column-follows-the-bijection"))),
-                   ("ids-0-to-n-1-root-0-parents-first-parent-relation-preserved", on_result(df_post("relabelled"))),
-                   ("result-is-a-fresh-frame", fresh_result)],
+          options=dict(models=ext_C05.MODELS),
+          ensures=[(w, on_result(df_post(w))) for w in SHAPES]
+          + [("every-column-follows-the-bijection", on_result(df_post("every-column-follows-the-bijection"))),
+             ("ids-0-to-n-1-root-0-parents-first-parent-relation-preserved", on_result(df_post("relabelled"))),
+             (PARENT_IDS, on_result(df_post(PARENT_IDS))),
+             ("result-is-a-fresh-frame", fresh_result)],
           notes="input frame frozen (any store into it is a failed frame obligation); _copy_and_apply is inlined, sort_nodes_ is used through its contract")
 
     # ---------------------------------------------------------------- _sort_tree(tree) / sort_tree(tree)
@@ -352,6 +400,10 @@ def register_users(R):
             t0 = o["tree"]
             if not isinstance(t1, Obj):
                 return False
+            if which in SHAPES:
+                return shape(col(t0, "id"), col(t1, "id"), col(t1, "pid"), which)
+            if which == PARENT_IDS:
+                return parent_ids(E, col(t0, "id"), col(t0, "pid"), col(t1, "pid"))
             c = impl_call(E)
             if c is None:
                 return False
@@ -372,15 +424,21 @@ def register_users(R):
     R.add(f"{TU}:_sort_tree", prop="C05",
           setup=lambda S: dict(tree=sym_tree(S, "t", frozen=False, extra_cols=(EXTRA,))),
           requires=tree_pre,
-          ensures=[("every-column-follows-the-bijection", st_post("every-column-follows-the-bijection", False)),
-                   ("ids-0-to-n-1-root-0-parents-first-parent-relation-preserved", st_post("relabelled", False)),
-                   ("sorts-in-place-and-returns-the-same-tree-object", st_post("returns-the-tree-it-was-given", False))])
+          options=dict(models=ext_C05.MODELS),
+          ensures=[(w, st_post(w, False)) for w in SHAPES]
+          + [("every-column-follows-the-bijection", st_post("every-column-follows-the-bijection", False)),
+             ("ids-0-to-n-1-root-0-parents-first-parent-relation-preserved", st_post("relabelled", False)),
+             (PARENT_IDS, st_post(PARENT_IDS, False)),
+             ("sorts-in-place-and-returns-the-same-tree-object", st_post("returns-the-tree-it-was-given", False))])
     R.add(f"{TU}:sort_tree", prop="C05",
           setup=lambda S: dict(tree=sym_tree(S, "t", frozen=True, extra_cols=(EXTRA,))),
           requires=tree_pre,
-          ensures=[("every-column-follows-the-bijection", st_post("every-column-follows-the-bijection", True)),
-                   ("ids-0-to-n-1-root-0-parents-first-parent-relation-preserved", st_post("relabelled", True)),
-                   ("result-shares-no-storage-with-the-input", st_post("result-shares-no-storage-with-the-input", True))],
+          options=dict(models=ext_C05.MODELS),
+          ensures=[(w, st_post(w, True)) for w in SHAPES]
+          + [("every-column-follows-the-bijection", st_post("every-column-follows-the-bijection", True)),
+             ("ids-0-to-n-1-root-0-parents-first-parent-relation-preserved", st_post("relabelled", True)),
+             (PARENT_IDS, st_post(PARENT_IDS, True)),
+             ("result-shares-no-storage-with-the-input", st_post("result-shares-no-storage-with-the-input", True))],
           notes="the input tree is frozen: any store into it is a failed frame obligation")
 
 
